@@ -960,6 +960,8 @@ class LayoutInterp:
                     return p_
                 if n.attr == "itemsize":
                     return Poly.const(ITEMSIZE[dt.bits])
+            if n.attr == "itemsize" and isinstance(base, tuple) and base and base[0] == "dtype" and base[1] is not None:
+                return Poly.const(ITEMSIZE[base[1].bits])
             if n.attr == "buf" and isinstance(base, tuple) and base and base[0] == "shm":
                 return ("buf", base[1] + ".buf")
             if n.attr == "nbytes":
@@ -1087,6 +1089,8 @@ class LayoutInterp:
             return Poly.const(len(args[0]))
         if d == "range" and args and all(isinstance(a, Poly) and not any(k for k in a.d if k) for a in args):
             return [Poly.const(i) for i in range(*[a.d.get((), 0) for a in args])]
+        if d in ("np.dtype", "numpy.dtype") and len(args) == 1:
+            return args[0] if isinstance(args[0], tuple) and args[0] and args[0][0] == "dtype" else self.UNK
         if d == "slice" and 1 <= len(args) <= 2:
             lo, hi = (None, args[0]) if len(args) == 1 else args
             return ("slice", lo, hi)
@@ -1597,6 +1601,8 @@ def rule_argsdict(ctx, classes=SKETCH_CLASSES):
             tp = "cms_type" if "cms_type" in fac.params else (fac.params[0] if fac.params else "cms_type")
             target = dispatch_table(F.walk(fac), is_param(tp), cm_classes).get(lit)
             okk = target == {cls.name}
+            if lit is None and tv is not None:
+                okk = None          # the recorded type is not a literal here (a value handed in): not decided
             ctx.ob("argsdict", ctor, tv or d[0].stmt, "cms_type=%r -> %s" % (lit, sorted(target) if target else None),
                    "the factory maps the recorded type string back to this class", okk)
 
@@ -2071,6 +2077,11 @@ def rule_value_fwd(ctx, classes=SKETCH_CLASSES):
                 res.append((True, "nothing to add (value <= 0)", fact_strs(r)))
                 continue
             res.append((len(cs) == 1, "one kernel call per add" if len(cs) == 1 else "%d kernel calls on a path" % len(cs), fact_strs(r)))
+        if not calls and any(e.kind == "call" and e.callee is None and isinstance(e.node, ast.Call) and isinstance(e.node.func, ast.Attribute)
+                             and isinstance(e.node.func.value, ast.Name) and e.node.func.value.id not in ("self", "np", "numpy") for e in w.events):
+            ctx.ob("value-fwd", m, m.node, "%s calls its kernel once" % m.qualname, "add() performs exactly one kernel add", None,
+                   "add() calls something the analysis cannot resolve to a kernel")
+            continue
         agg(ctx, "value-fwd", m, calls[0].node if calls else m.node, "%s calls its kernel once" % m.qualname, "add() performs exactly one kernel add", res)
         for c in calls:
             am = dict(zip(c.callee.params, c.args))
